@@ -4,7 +4,7 @@ from .. import family, mapcase
 
 PROPS_FILES = ['theories/Props/C14.v']
 FINDINGS_FILES = ['theories/Findings/C14.v']
-LEVEL = 'other'
+LEVEL = 'proof'
 TRUSTED = ['Model/Functions.v: ASCII-exact definitions of 8 built-in functions (parameters regenerated from bif_dict) and of the 5 user-defined functions of harness/udfs.py',
            'Model/Engine.v exec_fnml (row-wise reading of execute_fnml: inner executions stored as columns, binding by parameter IRI, null removal, explode) and Model/Spec.v spec_eval (the property\'s reading)']
 ASSUMES = ['partial claim: Unicode case mappings, strptime, SHA-256, round and uuid are not modelled; such cases are judged by the partition-independence oracle only']
